@@ -278,6 +278,28 @@ func ruleServeCancellable(c *Ctx, rule string) {
 		}
 	})
 	c.check(rule, "writer:cancel-on-write-error", okW, "the writer goroutine cancels the connection context under fact write-error ≠ nil", p.pos(w.Pos()))
+	// converse: after a failed write, every way on — the next turn of the loop or the goroutine's exit — passes that
+	// cancel; a writer that stops (or carries on) silently leaves Serve running and every sender parked on the queue
+	for _, wr := range p.transportOps(w, "Write", false) {
+		errPath := p.lpath(wr)
+		isCancel := func(i ssa.Instruction) bool {
+			cl, ok := i.(*ssa.Call)
+			return ok && typeKey(cl.Call.Value.Type()) == "context.CancelCauseFunc" && p.callbackField(cl.Call.Value) == "goat.handler.cancel"
+		}
+		isOnward := func(i ssa.Instruction) bool {
+			switch i.(type) {
+			case *ssa.Return, *ssa.Select:
+				return true
+			}
+			return false
+		}
+		hit := p.pathAvoiding(w, wr, isOnward, isCancel, p.edgeImplies(w, atom("isnil", errPath)))
+		where := ""
+		if hit != nil {
+			where = p.ipos(hit)
+		}
+		c.check(rule, "writer:every-write-error-cancels", hit == nil, "no path from a failed write to the next wait or to the goroutine's exit avoids h.cancel (reached without it: "+where+")", p.ipos(wr))
+	}
 	// and the cancel stored in handler.cancel belongs to handler.ctx
 	pair := false
 	for _, s := range p.FieldStores(fieldKey{"goat.handler", "cancel"}) {
@@ -542,7 +564,7 @@ func ruleTerminalErrorIsStatus(c *Ctx, rule string) {
 	p := c.p
 	rl := p.MustFn("client.clientStream.readLoop")
 	n := 0
-	for _, s := range p.cellStoresNamed(rl, "rErr") {
+	for _, s := range p.cellStores(p.terminalErrCell()) {
 		if s.Parent() != rl {
 			continue
 		}
